@@ -869,8 +869,170 @@ def validate_regrid(rng, n, res):
     res.extra["translation_validation_regrid"] = stats
 
 
+def validate_spill(rng, n, res):
+    """`Output._pack` / `_unpack` / `_clear_data` / `finalize` on *real* outputs with a memory limit and a scratch
+    directory against the translated definitions: histories of publications (plain and masked payloads of different
+    sizes), pulls by one or two end points, reads of stored entries, files that vanish behind the output's back, and the
+    finalisation; before every call the live state (buffer, memory account, counter, directory listing with file contents)
+    is handed to the translated function, afterwards result and state are compared"""
+    import shutil
+    import tempfile
+
+    need = ("Output__pack", "Output__unpack", "Output__clear_data_files", "Output_finalize")
+    if not all(common.TRANSLATION_STATUS.get(f, {}).get("translated") for f in need):
+        return
+    stats = {"outputs": 0, "Output__pack": 0, "Output__unpack": 0, "Output__clear_data_files": 0, "Output_finalize": 0,
+             "spilled": 0, "masked_spilled": 0, "evicted_files": 0, "errors": {}, "mismatch": 0}
+    reqs, reals = [], []
+    units = fm.UNITS.Unit("m")
+
+    def payload(k, ln, masked):
+        a = np.full((ln,), float(k))
+        if masked:
+            a = np.ma.masked_array(a, mask=[i % 2 == 0 for i in range(ln)] if ln > 1 else [False])
+        return fm.UNITS.Quantity(a, units)
+
+    def key_of(q):
+        m = q.magnitude if hasattr(q, "magnitude") else q
+        return 2 * int(round(float(np.ma.getdata(m).flat[0])))
+
+    for _ in range(n):
+        tmp = tempfile.mkdtemp(prefix="finam_verif_spill_")
+        try:
+            out = fm.Output(name="o", info=fm.Info(time=EPOCH, grid=fm.NoGrid(), units="m"))
+            limit = rng.choice([None, -1, 0, 0, 16, 40, 64, 10_000])
+            out.memory_limit, out.memory_location = limit, tmp
+            tg = [object() for _ in range(rng.choice([1, 2]))]
+            out._connected_inputs = {o: None for o in tg}
+            tid = {id(o): j for j, o in enumerate(tg)}
+            stats["outputs"] += 1
+            nb, masked_ids = {}, []
+
+            def fname_id(path):
+                return 2 * int(os.path.basename(path)[:-4].split("-")[-1]) + 1
+
+            def enc_data():
+                return [[us_of(t), (fname_id(d) if isinstance(d, str) else key_of(d))] for t, d in out.data]
+
+            def enc_fs():
+                o = []
+                for f in sorted(os.listdir(tmp), key=lambda x: int(x[:-4].split("-")[-1])):
+                    o.append([fname_id(f), key_of(np.load(os.path.join(tmp, f), allow_pickle=True))])
+                return o
+
+            def enc_ci():
+                return [[tid[id(o)], None if t is None else us_of(t)] for o, t in out._connected_inputs.items()]
+
+            def fs_set(x):
+                return sorted(map(tuple, x))
+
+            k, tnow = 0, 0
+            steps = rng.randint(3, 9)
+            alive = True
+            for _s in range(steps):
+                if not alive:
+                    break
+                r = rng.random()
+                if r < 0.45 or not out.data:
+                    k += 1
+                    ln = rng.choice([1, 2, 5, 8])
+                    is_m = rng.random() < 0.3
+                    q = payload(k, ln, is_m)
+                    nb[2 * k] = int(q.nbytes)
+                    if is_m:
+                        masked_ids.append(2 * k)
+                    before = [limit, int(out._total_mem), int(out._mem_counter), enc_fs(), 2 * k, [[a, b] for a, b in nb.items()], list(masked_ids)]
+                    try:
+                        ret = out._pack(q)
+                        tnow += rng.choice([1, 1, 2])
+                        out.data.append((EPOCH + dt.timedelta(hours=tnow), ret))
+                        rid = fname_id(ret) if isinstance(ret, str) else key_of(ret)
+                        real = {"ok": [rid, int(out._mem_counter), int(out._total_mem), fs_set(enc_fs())]}
+                        if isinstance(ret, str):
+                            stats["spilled"] += 1
+                            stats["masked_spilled"] += is_m
+                    except Exception as e:  # noqa
+                        real, alive = {"err": err_class(e)}, False
+                    reqs.append({"fn": "Output__pack", "args": before})
+                    reals.append(real)
+                elif r < 0.6:
+                    j = rng.randrange(len(out.data))
+                    w = out.data[j][1]
+                    if isinstance(w, str) and rng.random() < 0.1:
+                        os.remove(w)       # the file vanishes behind the output's back
+                    before = [enc_fs(), fname_id(w) if isinstance(w, str) else key_of(w)]
+                    try:
+                        real = {"ok": key_of(out._unpack(w))}
+                    except Exception as e:  # noqa
+                        real = {"err": err_class(e)}
+                    reqs.append({"fn": "Output__unpack", "args": before})
+                    reals.append(real)
+                    if "err" in real:
+                        alive = False
+                elif r < 0.9:
+                    tgt = rng.choice(tg)
+                    j = rng.choice([len(out.data) - 1, len(out.data) - 1, rng.randrange(len(out.data))])
+                    t_req = out.data[j][0] + dt.timedelta(minutes=rng.choice([0, 0, 20]))
+                    if isinstance(out.data[0][1], str) and rng.random() < 0.05:
+                        os.remove(out.data[0][1])
+                    before = [enc_data(), enc_ci(), int(out._total_mem), enc_fs(), us_of(t_req), tid[id(tgt)], [[a, b] for a, b in nb.items()]]
+                    nfiles = len(os.listdir(tmp))
+                    try:
+                        out._clear_data(t_req, tgt)
+                        real = {"ok": [enc_ci(), int(out._total_mem), enc_data(), fs_set(enc_fs())]}
+                        stats["evicted_files"] += nfiles - len(os.listdir(tmp))
+                    except Exception as e:  # noqa
+                        real, alive = {"err": err_class(e)}, False
+                    reqs.append({"fn": "Output__clear_data_files", "args": before})
+                    reals.append(real)
+            if alive:
+                before = [enc_data(), enc_fs()]
+                try:
+                    out.finalize()
+                    real = {"ok": [enc_data(), fs_set(enc_fs())]}
+                except Exception as e:  # noqa
+                    real = {"err": err_class(e)}
+                reqs.append({"fn": "Output_finalize", "args": before})
+                reals.append(real)
+        finally:
+            shutil.rmtree(tmp, ignore_errors=True)
+    if not reqs:
+        return
+
+    def flat(x, n_):
+        o = []
+        while len(o) < n_ - 1:
+            o.append(x[0])
+            x = x[1]
+        return o + [x]
+
+    for rq, real, lv in zip(reqs, reals, _trdriver(reqs)):
+        stats[rq["fn"]] += 1
+        if "err" in real or "err" in lv:
+            agree = real.get("err") == lv.get("err")
+            if "err" in real:
+                stats["errors"][real["err"]] = stats["errors"].get(real["err"], 0) + 1
+        elif rq["fn"] == "Output__pack":
+            g = flat(lv["ok"], 4)
+            agree = [g[0], g[1], g[2], sorted(map(tuple, g[3]))] == real["ok"]
+        elif rq["fn"] == "Output__unpack":
+            agree = lv["ok"] == real["ok"]
+        elif rq["fn"] == "Output__clear_data_files":
+            g = flat(lv["ok"], 4)
+            agree = [[list(p) for p in g[0]], g[1], [list(p) for p in g[2]], sorted(map(tuple, g[3]))] == real["ok"]
+        else:
+            g = flat(lv["ok"], 2)
+            agree = [[list(p) for p in g[0]], sorted(map(tuple, g[1]))] == real["ok"]
+        if not agree:
+            stats["mismatch"] += 1
+            res.diverge("translation/" + rq["fn"], {"fn": rq["fn"], "args": rq["args"]}, real, lv)
+    res.extra["translation_validation_spill"] = stats
+
+
 def validate(prop, rng, n_per_fn, res):
     """runs the validation for the translated functions owned by `prop`; divergences go to `res`"""
+    if prop == "C10" and os.path.exists(TRDRIVER):
+        validate_spill(rng, max(150, n_per_fn), res)
     if prop in ("C07", "C16") and os.path.exists(TRDRIVER):
         validate_regrid(rng, max(400, 3 * n_per_fn), res)
     if prop == "C07" and os.path.exists(TRDRIVER):
